@@ -163,3 +163,10 @@ Theorem enumred_lte_equal_operands :
   enum_index (ECond (ESup (EBin OLe (ELit (LEnum 8)) (ELit (LInt 8)))) (ELit (LInt 10)) (ELit (LInt 11)))
   = Some 10.
 Proof. vm_compute. reflexivity. Qed.
+
+(* neither reducer traps any more, so on the common fragment they are the same function *)
+Corollary efold_is_fold : forall e, int_only e = true -> efold e = fold e.
+Proof.
+  intros e H. destruct (efold_vs_fold e H) as [C|[E _]]; [|exact E].
+  exfalso. exact (efold_never_crashes e C).
+Qed.
